@@ -90,6 +90,21 @@ class Resolver(Entity):
         return None
 
 
+class Dispatcher(Entity):
+    """Never-faulted client: at its own event time it creates an event for another entity that is
+    due later (delayed job / retry / timer).  Whether that event is handled must depend on the state
+    of the target when it is due, not when it was put on the calendar."""
+
+    def __init__(self, name, targets):
+        super().__init__(name)
+        self.targets = targets
+
+    def handle_event(self, event):
+        md = event.context["metadata"]
+        inner = dict(md["inner"])
+        return Event(time=Instant(md["due"]), event_type="req", target=self.targets[inner["to"]], context={"metadata": inner})
+
+
 def _out(now, sink, origin, id_, tag):
     return Event(time=now, event_type="out", target=sink, context={"metadata": {"origin": origin, "id": id_, "tag": tag}})
 
@@ -317,6 +332,9 @@ def execute(case: dict, faults: list | None = None) -> dict:
                 net.add_link(a, b, link)
                 links[(a.name, b.name)] = link
 
+    dispatcher = Dispatcher("dispatcher", nodes)
+    entities.append(dispatcher)
+
     # ---- resources
     resources: dict[str, Resource] = {}
     for r in case.get("resources", []):
@@ -351,7 +369,17 @@ def execute(case: dict, faults: list | None = None) -> dict:
         if "dst" in w:
             md["dst"] = w["dst"]
         tgt = nodes[w["to"]]
-        pre.append(Event(time=Instant(w["t"]), event_type="req", target=tgt, context={"metadata": md}))
+        if w.get("via") is not None:  # created during the run, at t=via, by the dispatcher; due at w["t"]
+            pre.append(
+                Event(
+                    time=Instant(w["via"]),
+                    event_type="dispatch",
+                    target=dispatcher,
+                    context={"metadata": {"due": w["t"], "inner": md}},
+                )
+            )
+        else:
+            pre.append(Event(time=Instant(w["t"]), event_type="req", target=tgt, context={"metadata": md}))
         if w["to"] in queued:
             q = queued[w["to"]]
             rec = [w["id"], w["t"], None, None]
